@@ -36,15 +36,29 @@ struct Keys {
     x: usize,
     u: usize,
     m: usize,
+    /// the role's `keyids` list names its first key twice (nothing forbids it when a root is parsed)
+    dup: bool,
 }
 
-fn keys_for(alg: &str, k: usize) -> Keys {
+impl Keys {
+    /// the `keyids` list of the role under test
+    fn role_ids(&self) -> Vec<usize> {
+        let mut ids = self.auth.clone();
+        if self.dup {
+            ids.insert(1.min(ids.len()), self.auth[0]);
+        }
+        ids.push(self.m);
+        ids
+    }
+}
+
+fn keys_for(alg: &str, k: usize, dup: bool) -> Keys {
     // pool.all(): ed 0..12, ec 12..16, rsa 16..20
     match alg {
-        "ed" => Keys { auth: (0..k).collect(), x: 4, u: 5, m: 6 },
+        "ed" => Keys { auth: (0..k).collect(), x: 4, u: 5, m: 6, dup },
         // ec / rsa have four keys each: the side roles use ed keys
-        "ec" => Keys { auth: (12..12 + k).collect(), x: 4, u: 5, m: 6 },
-        _ => Keys { auth: (16..16 + k).collect(), x: 4, u: 5, m: 6 },
+        "ec" => Keys { auth: (12..12 + k).collect(), x: 4, u: 5, m: 6, dup },
+        _ => Keys { auth: (16..16 + k).collect(), x: 4, u: 5, m: 6, dup },
     }
 }
 
@@ -75,8 +89,7 @@ fn sig_model(s: &ASig, msg: u64) -> Value {
 fn site_model(keys: &Keys, thr: u64, msg: u64, sigs: &[ASig]) -> Value {
     let mut table = keys.auth.clone();
     table.push(keys.x);
-    let mut ids = keys.auth.clone();
-    ids.push(keys.m);
+    let ids = keys.role_ids();
     json!({"table": table, "ids": ids, "thr": thr, "m": msg, "sigs": sigs.iter().map(|s| sig_model(s, msg)).collect::<Vec<_>>()})
 }
 
@@ -84,12 +97,11 @@ struct Ctx<'a> {
     pool: &'a KeyPool,
 }
 
-fn api_case(ctx: &Ctx<'_>, out: &mut Out, api: &str, alg: &str, k: usize, thr: u64, list: &[Sym]) {
-    let keys = keys_for(alg, k);
+fn api_case(ctx: &Ctx<'_>, out: &mut Out, api: &str, alg: &str, k: usize, thr: u64, list: &[Sym], dup: bool) {
+    let keys = keys_for(alg, k, dup);
     let sigs = to_sigs(&keys, list);
     let mut world = World::new(ctx.pool, Names::default());
-    let mut ids = keys.auth.clone();
-    ids.push(keys.m);
+    let ids = keys.role_ids();
     let mut table = keys.auth.clone();
     table.push(keys.x);
     let verdict: bool;
@@ -111,20 +123,19 @@ fn api_case(ctx: &Ctx<'_>, out: &mut Out, api: &str, alg: &str, k: usize, thr: u
         let r: Signed<Targets> = serde_json::from_value(world.targets_doc(&role)).expect("role parses");
         verdict = d.verify_role(&r, &world.names.roles[0]).is_ok();
     }
-    let class = format!("api-{api}-{alg}");
-    let input = json!({"kind": "api", "api": api, "site": site_model(&keys, thr, 2, &sigs), "list": format!("{list:?}")});
+    let class = format!("api-{api}-{alg}{}", if dup { "-dupid" } else { "" });
+    let input = json!({"kind": "api", "api": api, "dup": dup, "site": site_model(&keys, thr, 2, &sigs), "list": format!("{list:?}")});
     out.case(&class, input, json!({ "ok": verdict }));
 }
 
 const SITES: [&str; 8] = ["shipped", "root-old", "root-new", "timestamp", "snapshot", "targets", "deleg1", "deleg2"];
 
-async fn load_case(ctx: &Ctx<'_>, out: &mut Out, site: &str, alg: &str, k: usize, thr: u64, list: &[Sym], consistent: bool) {
-    let keys = keys_for(alg, k);
+async fn load_case(ctx: &Ctx<'_>, out: &mut Out, site: &str, alg: &str, k: usize, thr: u64, list: &[Sym], consistent: bool, dup: bool) {
+    let keys = keys_for(alg, k, dup);
     let sigs = to_sigs(&keys, list);
     let mut world = World::new(ctx.pool, Names::default());
     let mut msgs = MsgGen(10);
-    let mut ids = keys.auth.clone();
-    ids.push(keys.m);
+    let ids = keys.role_ids();
     let under = (ids.clone(), thr);
     // side keys (ed): root 7, timestamp 8, snapshot 9, targets 10, deleg 11, other root 3
     let (rk, tk, sk, gk, dk) = (7usize, 8usize, 9usize, 10usize, 11usize);
@@ -251,8 +262,8 @@ async fn load_case(ctx: &Ctx<'_>, out: &mut Out, site: &str, alg: &str, k: usize
     let model = cycle_model(&mut world, &mem, &cyc, &mut labels);
     let ds = tempfile::tempdir().unwrap();
     let obs = run_cycle(&mut world, &mem, &cyc, ds.path(), &labels).await;
-    let class = format!("load-{site}-{alg}");
-    let input = json!({"kind": "load", "site_name": site, "site": site_model(&keys, thr, site_msg, &sigs),
+    let class = format!("load-{site}-{alg}{}", if dup { "-dupid" } else { "" });
+    let input = json!({"kind": "load", "site_name": site, "dup": dup, "site": site_model(&keys, thr, site_msg, &sigs),
         "list": format!("{list:?}"), "cycle": model});
     out.case(&class, input, obs.obs);
 }
@@ -324,14 +335,15 @@ async fn main() {
             let list = parse_list(c["input"]["list"].as_str().unwrap());
             let site = &c["input"]["site"];
             let thr = site["thr"].as_u64().unwrap();
-            let k = site["ids"].as_array().unwrap().len() - 1;
+            let dup = c["input"]["dup"].as_bool().unwrap_or(false);
+            let k = site["ids"].as_array().unwrap().len() - 1 - dup as usize;
             if parts[0] == "api" {
-                api_case(&ctx, &mut out, parts[1], parts[2], k, thr, &list);
+                api_case(&ctx, &mut out, parts[1], parts[2], k, thr, &list, dup);
             } else {
-                let alg = parts[parts.len() - 1];
+                let alg = if parts[parts.len() - 1] == "dupid" { parts[parts.len() - 2] } else { parts[parts.len() - 1] };
                 let site_name = c["input"]["site_name"].as_str().unwrap();
                 let cs = c["input"]["cycle"]["shipped"]["cs"].as_bool().unwrap_or(false);
-                load_case(&ctx, &mut out, site_name, alg, k, thr, &list, cs).await;
+                load_case(&ctx, &mut out, site_name, alg, k, thr, &list, cs, dup).await;
             }
         }
         out.finish();
@@ -339,17 +351,21 @@ async fn main() {
     }
     let thorough = args.tier == "thorough";
     // corpus: the repaired defect (two signatures by one key, threshold 2, delegated role)
-    api_case(&ctx, &mut out, "deleg", "ed", 2, 2, &[Sym::V(0), Sym::A(0)]);
-    api_case(&ctx, &mut out, "deleg", "rsa", 2, 2, &[Sym::V(0), Sym::A(0)]);
-    load_case(&ctx, &mut out, "deleg1", "ed", 2, 2, &[Sym::V(0), Sym::A(0)], false).await;
-    load_case(&ctx, &mut out, "deleg2", "ed", 2, 2, &[Sym::V(0), Sym::V(0)], true).await;
+    api_case(&ctx, &mut out, "deleg", "ed", 2, 2, &[Sym::V(0), Sym::A(0)], false);
+    api_case(&ctx, &mut out, "deleg", "rsa", 2, 2, &[Sym::V(0), Sym::A(0)], false);
+    load_case(&ctx, &mut out, "deleg1", "ed", 2, 2, &[Sym::V(0), Sym::A(0)], false, false).await;
+    load_case(&ctx, &mut out, "deleg2", "ed", 2, 2, &[Sym::V(0), Sym::V(0)], true, false).await;
+    // a key id listed twice for the role counts once
+    api_case(&ctx, &mut out, "root", "ed", 1, 2, &[Sym::V(0)], true);
+    api_case(&ctx, &mut out, "deleg", "ed", 1, 2, &[Sym::V(0)], true);
     // exhaustive part (ed25519)
     let (kmax, lmax) = if thorough { (3, 4) } else { (2, 3) };
     for api in ["root", "deleg"] {
         for k in 1..=kmax {
             for thr in 1..=(k as u64 + 1).min(4) {
                 for l in all_lists(k, if k == 3 { lmax.min(3) + (thorough as usize) * 0 } else { lmax }) {
-                    api_case(&ctx, &mut out, api, "ed", k, thr, &l);
+                    api_case(&ctx, &mut out, api, "ed", k, thr, &l, false);
+                    if l.len() <= 2 { api_case(&ctx, &mut out, api, "ed", k, thr, &l, true); }
                 }
             }
         }
@@ -363,7 +379,8 @@ async fn main() {
         let thr = r.range(1, 4);
         let len = r.range(3, 5) as usize;
         let l = rand_list(&mut r, k, len);
-        api_case(&ctx, &mut out, if r.chance(1, 2) { "root" } else { "deleg" }, alg, k, thr, &l);
+        let dup = r.chance(1, 4);
+        api_case(&ctx, &mut out, if r.chance(1, 2) { "root" } else { "deleg" }, alg, k, thr, &l, dup);
     }
     // the eight sites of load()
     let per_site = if thorough { 5_000 } else { 400 };
@@ -375,7 +392,8 @@ async fn main() {
             let thr = r.range(1, 4);
             let len = r.range(0, 5) as usize;
             let l = rand_list(&mut r, k, len);
-            load_case(&ctx, &mut out, site, alg, k, thr, &l, r.chance(1, 2)).await;
+            let dup = r.chance(1, 4);
+            load_case(&ctx, &mut out, site, alg, k, thr, &l, r.chance(1, 2), dup).await;
         }
     }
     out.finish();
